@@ -358,7 +358,7 @@ func (d *Decimal) exponentLimit(c *Context, res Condition) Condition {
 			// but it must not be the one d happened to have before.
 			d.Form = Infinite
 			d.Exponent = 0
-			res |= Overflow | Inexact
+			res |= Overflow | Inexact | Rounded
 		}
 	}
 	return res
@@ -434,7 +434,7 @@ func (d *Decimal) setExponent(c *Context, nd int64, res Condition, xs ...int64) 
 			res |= Clamped
 			r = c.MaxExponent
 		} else {
-			res |= Overflow | Inexact
+			res |= Overflow | Inexact | Rounded
 			d.Form = Infinite
 		}
 	}
